@@ -179,6 +179,7 @@ def run(prog: Program, rep: Report, tier: str):
     rule_neg(prog, rep, classes)
     rule_mask(prog, rep, classes)
     rule_deriv(prog, rep, classes)
+    rule_samebin(prog, rep)
     if tier == "thorough":
         from ..audit import audit_generic
         audit_generic(prog, rep, "C02")
@@ -581,3 +582,24 @@ def rule_deriv(prog, rep, classes):
 def mk_add_(items):
     from ..terms import mk_add
     return mk_add(tuple(items))
+
+
+def rule_samebin(prog, rep):
+    """The spline's log-det is log derivative(x): derivative must look up the SAME bin as transform does for the
+    same input (identical index expression, which also has to stay inside the table)."""
+    from .c07 import abstract_spline, where_parts
+    from .spline import rule_bin, spline_method_term
+    rep.rule("C02.samebin", "RationalQuadraticSpline.derivative locates its bin with exactly the index expression "
+                            "transform uses (same table, same sanitised operand, same clamps): otherwise the reported "
+                            "log-det belongs to a different piece than the value", minimum=1)
+    c = prog.cls("flowjax.bijections.rational_quadratic_spline.RationalQuadraticSpline")
+    tT, tD = spline_method_term(prog, "transform"), spline_method_term(prog, "derivative")
+    wt, wd = where_parts(tT), where_parts(tD)
+    site = method_site(prog, c, "derivative")
+    at, ad = (abstract_spline(wt[1]) if wt else None), (abstract_spline(wd[1]) if wd else None)
+    if not at or not ad:
+        rep.undecided("C02.samebin", site, "spline:samebin", "bin lookup not recognised")
+    else:
+        rep.check(equal(at[2], ad[2]), "C02.samebin", site, "RationalQuadraticSpline:derivative-bin==transform-bin",
+                  show(at[2], 120), f"transform looks up bin {show(at[2], 160)} but derivative looks up {show(ad[2], 160)}")
+    rule_bin(prog, rep, "C02.bin")
